@@ -97,6 +97,7 @@ def replay(ctx, functionals, prefix, maxlen):
     os.remove(dot)
     t2, cf2 = tlcmod.gen_mc(ctx.work, "BckHistory", "MC_BckHistory_dev", dict(base, DefaultsImmutable=False), invariants=["BackwardConfigIsOwn"])
     ctx.expect_violation(t2, cf2, inv="BackwardConfigIsOwn", label="deviation DefaultsImmutable", workers=4, timeout=300)
+    ctx.check_proof("BckHistory_proofs")       # histories of any length
     full = sorted([(s_["f"], s_["hist"]) for s_ in nodes.values() if len(s_["hist"]) == maxlen], key=lambda fh: (fh[0], [(c_["v"], c_["given"]) for c_ in fh[1]]))
     n = 0
     observed = 0
